@@ -112,6 +112,15 @@ def mk_hit(key_callable, call, variant, seed, clause, detail, key_detail, data):
     return Hit(clause, key, what, snippet, dict(data, call=call, variant=list(variant), seed=seed))
 
 
+def clean_caches():
+    import abel
+    for mod in (abel.basex, abel.daun, abel.dasch, abel.linbasex, abel.rbasex):
+        try:
+            mod.cache_cleanup()
+        except Exception:       # noqa
+            pass
+
+
 def dynamic(ctx, H, variants, seeds, fresh_sample, rng):
     hits = []
     stats = dict(evaluations=0, cases=0, ok_cases=0, raised={}, by_variant={}, fresh_compared=0, fresh_errors=[])
@@ -163,6 +172,33 @@ def dynamic(ctx, H, variants, seeds, fresh_sample, rng):
                     else:
                         kd = input_class(A)
                     hits.append(mk_hit(k, call, v, seed, clause, detail, kd, dict(callable=k, call_index=i)))
+    # interleaving: a call must return the same result before and after the other
+    # calls of the same callable (different options, sizes, weights, ...)
+    v0 = ('f64', 'C')
+    by_callable = {}
+    for (k, i, call, spec) in all_cases():
+        by_callable.setdefault(k, []).append((i, call, spec))
+    for k, lst in by_callable.items():
+        if len(lst) < 2:
+            continue
+        for first in range(min(2, len(lst))):
+            i0, call0, spec0 = lst[first]
+            if 'only' in spec0 and v0[0] not in spec0['only']:
+                continue
+            clean_caches()          # the reference result is computed from empty memory caches
+            A0, r0, e0 = H['one_call'](call0, v0, seeds[0], float('nan'))
+            d0 = H['exc_digest'](e0) if e0 is not None else H['digest'](r0)
+            for (j, callj, specj) in lst[first + 1:] + lst[:first]:
+                if 'only' in specj and v0[0] not in specj['only']:
+                    continue
+                H['one_call'](callj, v0, seeds[0], float('nan'))
+                stats['evaluations'] += 1
+            A1, r1, e1 = H['one_call'](call0, v0, seeds[0], float('nan'))
+            d1 = H['exc_digest'](e1) if e1 is not None else H['digest'](r1)
+            stats['evaluations'] += 2
+            if d1 != d0:
+                others = [c for (_, c, _) in lst[first + 1:] + lst[:first]]
+                hits.append(mk_hit_history(k, i0, call0, others, v0, seeds[0], H['diff_paths'](d0, d1)[:4]))
     # fresh-process repeats
     if jobs:
         digs, errs = run_children(jobs)
@@ -195,6 +231,33 @@ ok = (here == out == again)
 print('C18 fresh-process repeat of %%s: %%s' %% (CALL[:90], 'identical' if ok else 'DIFFERS'))
 sys.exit(0 if ok else 1)
 '''
+
+
+HISTORY_SNIPPET = r'''
+CALL = %(call)r
+OTHERS = %(others)r
+VARIANT = %(variant)r
+SEED = %(seed)d
+import abel
+for mod in (abel.basex, abel.daun, abel.dasch, abel.linbasex, abel.rbasex):
+    mod.cache_cleanup()
+A, r, e = one_call(CALL, VARIANT, SEED, float('nan'))
+d0 = exc_digest(e) if e is not None else digest(r)
+for c in OTHERS:
+    one_call(c, VARIANT, SEED, float('nan'))
+A, r, e = one_call(CALL, VARIANT, SEED, float('nan'))
+d1 = exc_digest(e) if e is not None else digest(r)
+ok = d0 == d1
+print('C18 same call before/after other calls of the same function: %%s %%s' %% (CALL[:90], 'identical' if ok else 'DIFFERS at %%r' %% (diff_paths(d0, d1)[:4],)))
+sys.exit(0 if ok else 1)
+'''
+
+
+def mk_hit_history(k, i, call, others, v, seed, paths):
+    sn = HARNESS_SRC + '\nimport sys\n' + HISTORY_SNIPPET % dict(call=call, others=others, variant=tuple(v), seed=seed)
+    return Hit('repeat-after-other-calls', 'C18:history:%s:call%d' % (k, i),
+               '%s: the same call returns a different result after other calls of the same function '
+               '(differs at %s)' % (k, ', '.join(paths)), sn, dict(callable=k, call=call, others=others))
 
 
 def mk_hit_fresh(k, i, call, v, seed):
